@@ -89,7 +89,7 @@ def load_known_findings(pid):
 
 
 def safe_name(name):
-    return re.sub(r"[^A-Za-z0-9_.\-]+", "_", name).strip("_")
+    return re.sub(r"[^A-Za-z0-9_.\-]+", "_", name.replace("[]", "_list")).strip("_")
 
 
 def native_replay(request, timeout=300):
